@@ -1,11 +1,13 @@
 """C04 - every operation terminates; losing the connection fails all pending work."""
 import connlane as L
 
-MC = {"quick": [("mc-faults", "MCLdapConn", "MCConn_c04_quick.cfg", 900, 8)],
+MC = {"quick": [("mc-faults", "MCLdapConn", "MCConn_c04_quick.cfg", 900, 8),
+                ("mc-faults-stall", "MCLdapConn", "MCConn_c04_stall.cfg", 900, 8)],
       "thorough": [("mc-faults", "MCLdapConn", "MCConn_c04_quick.cfg", 900, 12),
+                   ("mc-faults-stall", "MCLdapConn", "MCConn_c04_stall.cfg", 900, 12),
                    ("mc-liveness", "MCLdapConn", "MCConn_c04_live.cfg", 3400, 12)]}
-PROFILES = {"quick": [("faults", 300), ("mixed", 100)],
-            "thorough": [("faults", 5000), ("mixed", 2000)]}
+PROFILES = {"quick": [("faults", 300), ("mixed", 100), ("stallfaults", 200)],
+            "thorough": [("faults", 5000), ("mixed", 2000), ("stallfaults", 3000)]}
 SCRIPTS = {"quick": ("GenConn_faults5.cfg", 6), "thorough": ("GenConn_faults5.cfg", 1)}
 RULE = ("model: server close / reset / undecodable frame / write failure / unbind / last handle dropped allowed at every point; "
         "FailFast, NotStuck (no state with a dead connection, a waiting caller and no enabled internal step), UnbindCloses, "
@@ -46,8 +48,58 @@ def extra(chk):
                     "every frame boundary, and the request bytes at every offset by a write failure; each run is one validated trace")
 
 
+def extra_setup(chk):
+    """The exchange that precedes the driver loop is an operation too: with StartTLS the library sends an extended request and
+    waits for its response in the driver's single-operation mode. Every adversary script of the establishment machine
+    (spec/Setup.tla, TLC: MCSetupEst; C17 owns the machine) is played against LdapConnAsync::with_settings; here only
+    termination is judged: where the machine says Failed (close, hang-up, a non-LDAP element, a reply under another
+    message ID, a refusal ...) the call must return, not stay pending."""
+    import os
+    import common as C
+    import setuplane as S
+    out = os.path.join(chk.dir, "mcest.out")
+    res = C.tlc("MCSetupEst", "MCSetupEst_quick.cfg", out, workers=4, timeout=300, heap="2g")
+    chk.model("MCSetupEst/MCSetupEst_quick.cfg", res)
+    rp = os.path.join(chk.dir, "est-replay.json")
+    ob = os.path.join(chk.dir, "est-obs.ndjson")
+    C.harness("setup-run", ["replay", "est", out, rp, ob], timeout=3000, env={"VERIF_SETUP_DIR": S.workdir(chk), "SETUP_WARMUP": "noverify"})
+    rep = C.load(rp)
+    for x in (out, ob):
+        if os.path.exists(x):
+            os.remove(x)
+    hangs = {k: v for k, v in rep.get("mismatch_by_key", {}).items() if ":hang:" in k}
+    kept = {}
+    for m in rep.get("mismatches", []):
+        kept.setdefault(m["key"], []).append(m["case"])
+    for k, n in hangs.items():
+        chk.problem("setup:" + k.split(":", 1)[1], dict(count=n, cases=kept.get(k, [])[:3]),
+                    "S->I: adversary scripts of MCSetupEst played against LdapConnAsync::with_settings (termination only)")
+    others = {k: v for k, v in rep.get("mismatch_by_key", {}).items() if k not in hangs}
+    if others:
+        chk.notes.append("establishment: differences owned by C17/C18 (not this property): %s" % json_keys(others))
+    cnt = rep.get("counters", {})
+    chk.evaluations += rep["evaluations"]
+    chk.extra["establishment_termination"] = dict(scripts=cnt.get("vectors", 0), hangs=sum(hangs.values()),
+                                                  results={k[7:]: v for k, v in cnt.items() if k.startswith("result_")})
+    if cnt.get("vectors", 0) == 0 or cnt.get("resp_wrongid", 0) == 0 or cnt.get("resp_close", 0) == 0:
+        chk.tool_error("the establishment replay observed no faulty StartTLS exchange (vacuous)")
+    chk.rule.append("establishment: every adversary script of MCSetupEst (StartTLS response in {success, refusal, non-LDAP element, "
+                    "close, hang-up, other message ID, silence} x handshake outcomes x timeout none/short) played against "
+                    "with_settings; a call still pending where the machine requires Failed is a hang")
+    S.cleanup(chk)
+
+
+def json_keys(d):
+    return ", ".join("%s x%d" % kv for kv in sorted(d.items()))
+
+
+def extra_all(chk):
+    extra(chk)
+    extra_setup(chk)
+
+
 def run(tier):
-    return L.run_lane("C04", tier, MC[tier], PROFILES[tier], RULE, scripts=SCRIPTS[tier], selftests=[("data-after-exit", L.corrupt_failfast, "core:Ret")], extra=extra)
+    return L.run_lane("C04", tier, MC[tier], PROFILES[tier], RULE, scripts=SCRIPTS[tier], selftests=[("data-after-exit", L.corrupt_failfast, "core:Ret")], extra=extra_all)
 
 
 def replay(path):
